@@ -188,7 +188,7 @@ def replay_insertions(start, events, nodes, dmin, dmax, k, dist, blocked, tol=1e
             if a["placed"]:
                 bad("nearest", {"sample": q}, "sample placed without being measured against any node")
             continue
-        x0, n0, _ = a["dist"][0]
+        x0, n0, v0 = a["dist"][0]
         if not same(x0, q):
             bad("insertion_log", {"sample": q, "measured": x0}, "first distance query is not about the sample")
             continue
@@ -202,7 +202,9 @@ def replay_insertions(start, events, nodes, dmin, dmax, k, dist, blocked, tol=1e
                 continue
         if len(may) > 1:
             stats["nn_ties"] += 1
-        d0 = dist(q, n0)
+        # the range decision is taken on the value the supplied distance function returned (checked above against
+        # the oracle's value to `tol`), so a sample exactly AT a bound is decided exactly and never by rounding noise
+        d0 = v0 if abs(v0 - dist(q, n0)) <= tol else dist(q, n0)
         in_range = dmin <= d0 <= dmax
         free0 = not blocked(q, n0)
         if not a["placed"]:
